@@ -410,8 +410,13 @@ def run_creation(spec, tier, mg):
             if r.shape != w.shape or r.dtype != w.dtype or not np.array_equal(r.data, w):
                 findings.append("mg.arange(%s, %s): %s/%s vs numpy %s/%s" % (a, kw, r.shape, r.dtype, w.shape, w.dtype))
     for f in ("linspace", "logspace", "geomspace"):
-        for a in ((1.0, 8.0), (1, 100), (2.0, 2.0)):
-            for kw in ({}, {"num": 5}, {"num": 1}, {"num": 4, "endpoint": False}, {"num": 3, "dtype": np.float32}, {"num": 0}):
+        arr_ends = (([1.0, 2.0], [3.0, 5.0]), (np.array([[1.0], [2.0]]), 4.0), (1.0, [2.0, 3.0, 4.0]))
+        for a in ((1.0, 8.0), (1, 100), (2.0, 2.0)) + arr_ends:
+            for kw in ({}, {"num": 5}, {"num": 1}, {"num": 4, "endpoint": False}, {"num": 3, "dtype": np.float32}, {"num": 0},
+                       # array-like end points: where the new axis goes
+                       {"num": 3, "axis": 1}, {"num": 3, "axis": -1}, {"num": 2, "axis": 0}) + (({"num": 3, "base": 3.0}, {"num": 3, "base": 3.0, "axis": -1}) if f == "logspace" else ()):
+                if "axis" in kw and not any(a is e for e in arr_ends):
+                    continue
                 n += 1
                 try:
                     w = getattr(np, f)(*a, **kw)
